@@ -1,10 +1,13 @@
 """C05 — noisy targets: the reported estimate is the mean of fresh samples at the returned x."""
-from harness import budget as B, runlevel as R, skel as S
+from harness import budget as B, comp_final as F, runlevel as R, skel as S
 
-PROPS = ["Props/C05.v", "Props/C03budget.v"]
+PROPS = ["Props/C05.v", "Props/C03budget.v", "Props/C05final.v"]
 THEOREMS = ["C05_returned_x_is_evaluated_iterate", "C05_last_calls_at_x", "C05_estimate_is_mean_and_sem", "C05_no_resampling_otherwise", "C05_noise_test",
-            "C05_resampling_spends_the_reserve", "C03_reserve_exact", "C03_noise_level_rule", "C03_budget_model_is_source"]
-TRANSLATORS = ["budget"]
+            "C05_resampling_spends_the_reserve", "C03_reserve_exact", "C03_noise_level_rule", "C03_budget_model_is_source",
+            # Props/C05final.v: the final phase of Model/Skeleton.v equals gen/Src_final.v, regenerated from the statements of optimize() after the main loop
+            "C05_final_phase_is_source", "C05_resampling_block_is_source", "C05_sd_vector_is_source_partial", "C05_returned_iterate_is_one_history_row",
+            "C05_final_samples_not_recorded", "C05_estimate_is_source", "C05_sd_supplement_is_sd_at_x_refuted", "C03_final_calls_bounded_is_source", "C19_result_fields_are_source"]
+TRANSLATORS = ["budget", "final"]
 LEVEL = "proof"
 RULE = ("real runs with stochastic targets (auto-detected, declared homoskedastic, user-specified heteroskedastic; sigma 0.05-1; noise_final_samples 0,1,2,3,10; budgets squeezing the reserve; "
         "log/linear boxes; constraints) + deterministic controls, compared with the skeleton model INCLUDING its final phase (chosen iterate, the tail of the call list, yval_vec, SD vector, "
@@ -14,6 +17,10 @@ TRUSTED = ["Coq 8.16.1 kernel + vm_compute", "hand-written model Model/Skeleton.
            "side condition noisy_u_ok (the end-of-iteration swap keeps the incumbent point) evaluated in Coq on every noisy iteration of every run",
            "the number of final samples is the RESERVE min(noise_final_samples, max_fun_evals - initial calls) of Model/Budget.v (translate/budget.py regenerates the arithmetic from the source; "
            "the model is compared with the recorded initialisation of every run of this panel; full account under C03)"]
+TRUSTED += ["translate/final.py regenerates the tail of optimize() (guard of the noisy end-game, choice of the returned iterate, final re-sampling, self.x, construction of the result) and "
+            "OptimizeResult.set_attributes on every run (gen/Src_final.v; fail-closed: every statement after the main loop must be understood or explicitly whitelisted as timing / logging); "
+            "validated each run: the generated definitions evaluated by Coq on every recorded end-game of this panel, the generated (key, source) list against the real OptimizeResult on generated states "
+            "(harness/comp_final.py); oracles: np.argmin over exact rational scores, sqrt(2) * erfcinv(.), the re-estimated history, NumPy mean / std"]
 ASSUMPTIONS = ["the final re-sampling exists only if at least one poll iteration completed (runs ending in iteration 0 return the incumbent without yval_vec)"]
 
 
@@ -57,6 +64,10 @@ def tie(ctx, broken):
     out = R.tie_skeleton(ctx, broken, [(s, None) for s in specs_for(ctx)], "c05", extra_valid="noisy")
     R.count_runs(ctx, out, lambda tr, P: P is not None and P.get("final_expect", {}).get("sampled"))
     R.apply_monitor(ctx, out, R.mon_c05)
+    F.tie_final(ctx, broken, out, "c05")          # gen/Src_final.v on every recorded end-game (translator validation)
+    F.tie_result_assembly(ctx, broken)
+    F.apply_mon_final(ctx, out, broken)
+    R.apply_monitor(ctx, out, F.mon_c05_sdsuppl)  # open known finding (SD supplement taken from the last logged row), reported separately so that it hides nothing
     B.run_level_tie(ctx, broken, out, "c05")      # level, reserve (= number of final samples), loop budget vs Model/Budget.v
     # noise detection: level after init vs |y0 - y0'| > tol_noise
     bad = []
@@ -75,6 +86,8 @@ def tie(ctx, broken):
 
 
 def search(ctx, broken):
+    if F.search_final(ctx, broken, [R.mon_c05]):
+        return True
     if R.truncate_search(ctx, R.mon_c05):
         return True
     specs = [s for s in S.panel("thorough", ctx.seed + 37) if s["noise"] != "det"][:40]
@@ -83,4 +96,4 @@ def search(ctx, broken):
 
 
 def replay(ctx, rp):
-    return R.generic_replay(ctx, rp, [R.mon_c05])
+    return R.generic_replay(ctx, rp, [R.mon_c05, F.mon_final_property("C05"), F.mon_c05_sdsuppl])
